@@ -250,6 +250,16 @@ def run_group(g, woven, scratch, want_trace=False):
             continue
         res['n_real'] = len(real)
         res['n_canary'] = len(canaries)
+        # missing function bodies (a change started to call a library function the harness has no contract stub for) and
+        # failures of "layout" groups (which only pin a data layout that contract vocabulary relies on) say that the
+        # machinery no longer fits the code, not that a property is violated: undecided
+        nobody = [o for o in failed if '.no-body.' in (o['name'] or '')]
+        if nobody:
+            last_reason = 'no contract stub for a function the code now calls: %s' % ', '.join(sorted(set(o['name'] for o in nobody)))
+            continue
+        if failed and g.get('layout'):
+            last_reason = 'layout assumption of the contract vocabulary no longer holds: %s' % '; '.join((o['desc'] or '') for o in failed[:3])
+            continue
         if failed:
             res['status'] = 'fail'
             res['failed'] = [dict(name=o['name'], desc=o['desc'], file=o['file'], line=o['line'],
